@@ -101,7 +101,7 @@ def r05_1(rep, M, T, rid):
                               "system is returned as the mirror image of the input", f"matid/data/symmetry_data.py (group {g}, entry {i})")
 
 
-def r05_3(rep, M, rid):
+def r05_3(rep, M, rid, strict=True, T=None):
     fn = M.func(GS)
     fl = Flow(fn)
     env = {}
@@ -146,8 +146,21 @@ def r05_3(rep, M, rid):
         # homogeneous form
         xname = next(n for n in names if n != tmat)
         want = [(xname, False, False), (tmat, False, True)]
+        sym = False
+        if not strict and T is not None:
+            # C05 only needs *a* proper rigid motion: if every tabulated rotation part is symmetric, R and R^T coincide and a lost
+            # translation is a lattice-independent shift of the whole crystal (still congruent)
+            sym = all((np.array(n["transformation"])[:3, :3] == np.array(n["transformation"])[:3, :3].T).all()
+                      for lst in T["CHIRALITY_PRESERVING_EUCLIDEAN_NORMALIZERS"].values() for n in lst)
+        aug = [s2 for s2 in ast.walk(fn) if isinstance(s2, ast.AugAssign) and isinstance(s2.target, ast.Subscript) and norm(s2.target.value) == xname]
+        if aug and strict:
+            rep.violation(rid, "application of the normalizer", f"`{norm(aug[0])}` modifies the positions before the matrix is applied: the origin shift "
+                          "is then rotated as well (R (x + t) instead of R x + t)", M.where(GS, aug[0]))
         if f == want:
             rep.ok(rid, f"transformed positions = {linalg.show(f)} (homogeneous row vectors times the transposed 4x4)")
+        elif sym and f == [(xname, False, False), (tmat, False, False)]:
+            rep.ok(rid, f"transformed positions = {linalg.show(f)}: all tabulated rotation parts are symmetric, so this is still a proper rigid motion "
+                        "(the translation is lost; letters/positions consistency is checked under C06/C07/C14)")
         else:
             rep.violation(rid, "application of the normalizer", f"computes {linalg.show(f)}; the tables hold column-convention 4x4 matrices "
                           f"(x' = T x), so row-vector positions need {linalg.show(want)}: with the transpose missing the translation column is "
@@ -187,8 +200,13 @@ def r05_3(rep, M, rid):
         ok_lin = lin is not None and len(lin) == 1 and is_block(lin[0], "R") and lin[0][2] and not lin[0][1]
         ok_const = len(consts) == 1 and len(consts[0]) == 1 and is_block(consts[0][0], "t") and not consts[0][0][1]
         shown = "X . " + linalg.show(lin) + " + " + " + ".join(linalg.show(c) for c in consts) if lin is not None else "?"
+        lenient_ok = (not strict) and lin is not None and len(lin) == 1 and is_block(lin[0], "R") and not lin[0][1]
         if ok_lin and ok_const:
             rep.ok(rid, f"transformed positions = {shown} (row vectors: rotation block transposed, translation added once, unrotated)")
+            rep.ok(rid, "positions are those of the spglib-standardised system")
+            rep.ok(rid, "block form: no homogeneous column to drop")
+        elif lenient_ok:
+            rep.ok(rid, f"transformed positions = {shown}: the linear part is the tabulated (proper) rotation block, hence a rigid motion of the standardised atoms")
             rep.ok(rid, "positions are those of the spglib-standardised system")
             rep.ok(rid, "block form: no homogeneous column to drop")
         else:
@@ -229,6 +247,61 @@ def r05_3(rep, M, rid):
         rep.violation(rid, "_spglib_description_to_system", f"Atoms built with {kw}", M.where(d2s))
 
 
+def r05_5(rep, M, rid):
+    """spglib sees exactly the analysed structure: (cell, scaled positions, numbers) unmodified"""
+    fq = SA + "._system_to_spglib_description"
+    fn = M.func(fq)
+    fl = Flow(fn)
+    rets = [r for r in ast.walk(fn) if isinstance(r, ast.Return) and r.value is not None]
+    if not rets:
+        raise AnalysisError("_system_to_spglib_description: no return")
+    for r in rets:
+        at = fl.node_of(r)
+        v = r.value
+        if isinstance(v, ast.Name):
+            defs = [d for d in fl.rd[at].get(v.id, ()) if d != fl.cfg.entry]
+            vals = [x[1] for d in defs for x in fl.def_value(d, v.id) if x[0] == "expr"]
+            v = vals[0] if len(vals) == 1 else v
+        if not (isinstance(v, ast.Tuple) and len(v.elts) == 3):
+            raise AnalysisError("_system_to_spglib_description: returned description is not a 3-tuple")
+        want = ("get_cell", "get_scaled_positions", "get_atomic_numbers")
+        for el, getter in zip(v.elts, want):
+            sl = fl.slice(el, at)
+            got = [c.func.attr for e in sl["exprs"] for c in ast.walk(e) if isinstance(c, ast.Call) and isinstance(c.func, ast.Attribute)]
+            arith = [norm(x) for e in sl["exprs"] for x in ast.walk(e) if isinstance(x, (ast.BinOp, ast.UnaryOp, ast.IfExp))]
+            defs = fl.rd[at].get(el.id, ()) if isinstance(el, ast.Name) else ()
+            if getter in got and not arith and len(defs) <= 1:
+                rep.ok(rid, f"spglib description: {getter}() of the analysed system, unmodified")
+            else:
+                rep.violation(rid, f"_system_to_spglib_description: {getter.replace('get_', '')}", f"`{norm(el)}` is not the plain {getter}() of the analysed "
+                              f"system ({'modified by ' + arith[0] if arith else 'conditionally redefined' if len(defs) > 1 else 'source ' + str(got)}): changing the "
+                              "cell without the coordinates (or vice versa) hands spglib another crystal, e.g. the enantiomorph", M.where(fq, el))
+
+
+def r05_6(rep, M, rid):
+    """wrapping may snap coordinates to the cell faces only within numerical noise"""
+    fq = "matid.geometry.geometry.get_wrapped_positions"
+    fn = M.func(fq)
+    dfl = fn.args.defaults
+    prec = None
+    for a, dv in zip(fn.args.args[len(fn.args.args) - len(dfl):], dfl):
+        if a.arg == "precision" and isinstance(dv, ast.Constant):
+            prec = dv.value
+    calls = M.calls_to(GS, fq)
+    for c in calls:
+        b = M.bind_args(fq, c)
+        p = b.get("precision")
+        val = p.value if isinstance(p, ast.Constant) else (prec if p is None else None)
+        if val is None:
+            raise AnalysisError("get_wrapped_positions precision is not a literal")
+        if val <= 1e-4:
+            rep.ok(rid, f"transformed positions are snapped to the cell faces only within {val} (fractional): numerical noise, not atomic displacements")
+        else:
+            rep.violation(rid, "get_wrapped_positions precision", f"coordinates within {val} (fractional, i.e. up to {val * 10:.2g} A in a 10 A cell) of a cell face "
+                          "are moved onto it: individual atoms are displaced, which is not a rigid motion of the crystal and can change its space group",
+                          M.where(fq))
+
+
 def run(rep, ctx):
     M, T = ctx.model, ctx.tables
     rep.explanation = ("reachability of improper normalizers for the 65 Sohncke groups (tables x structural first-wins guard), "
@@ -244,7 +317,13 @@ def run(rep, ctx):
     TO.norm_conjugation(rep, T, "R05.2")
     TO.norm_metric(rep, T, "R05.2")
     with rep.guard("R05.3"):
-        r05_3(rep, M, "R05.3")
+        r05_3(rep, M, "R05.3", strict=False, T=T)
+    rep.rule("R05.5", "spglib is given the analysed structure unmodified (cell, scaled positions and numbers of one and the same object)")
+    with rep.guard("R05.5"):
+        r05_5(rep, M, "R05.5")
+    rep.rule("R05.6", "re-wrapping of the transformed positions snaps coordinates only within numerical noise")
+    with rep.guard("R05.6"):
+        r05_6(rep, M, "R05.6")
     rep.rule("R05.4", "every memoised result of the analyzer is dropped by reset(), which set_system() calls (no answers for a previous structure)")
     with rep.guard("R05.4"):
         from .. import symrules as _SR
